@@ -134,6 +134,13 @@ def stepUmap (st : State) (w : List String) : State × String :=
   | ["len"] => (st, toString m.len)
   | ["dump"] => (st, s!"n={m.data.size} size={m.size} {pairsStr (sortPairs m.toList)}")
   | ["iter"] => (st, pairsStr m.toList)
+  -- `Keys()` / `Values()` iterators and an iteration the callback stops at its j-th entry
+  | ["keys"] => (st, joinOr (m.toList.map fun p => toString p.1))
+  | ["values"] => (st, joinOr (m.toList.map fun p => toString p.2))
+  | ["first", j] =>
+    match j.toNat? with
+    | some j => (st, pairsStr (m.toList.take (j + 1)))
+    | none => (st, "bad-op")
   | ["slots"] => (st, s!"{joinOr (m.data.toList.map fun p => toString p.1)} z={optStr m.zero}")
   | _ => (st, "bad-op")
 
@@ -189,6 +196,12 @@ def stepSegmap (st : State) (w : List String) : State × String :=
     | some i => let m' := m.clearSegment i; ({ st with sm := m' }, s!"len={m'.count}")
     | none => (st, "bad-op")
   | ["dump"] => (st, s!"count={m.count} {pairsStr (sortPairs m.toList)}")
+  | ["keys"] => (st, joinOr (m.toList.map fun p => toString p.1))
+  | ["values"] => (st, joinOr (m.toList.map fun p => toString p.2))
+  | ["first", j] =>
+    match j.toNat? with
+    | some j => (st, pairsStr (m.toList.take (j + 1)))
+    | none => (st, "bad-op")
   | ["sweep", j, kind, k, v] =>
     match j.toNat?, k.toNat?, v.toNat? with
     | some j, some k, some v =>
